@@ -240,6 +240,68 @@ func sortedEvents(evs []any) []string {
 
 // forcePanics: execute steps for which the model predicts a panic anyway (used in a subprocess to
 // confirm that the real implementation dies there)
+// known findings tolerated (and counted) by the response monitors
+var known = map[string]bool{}
+
+// respMonitor evaluates response-level properties on one IMPLEMENTATION response emitted at tick t.
+// Returns (property, finding key or "", description) — "" property = fine.
+func respMonitor(w *world, reqs map[string]M, tid string, resp map[string]any, t int64) (string, string, string) {
+	num := func(v any) int64 {
+		switch x := v.(type) {
+		case json.Number:
+			n, _ := x.Int64()
+			return n
+		case int64:
+			return x
+		case int:
+			return int64(x)
+		}
+		return -1
+	}
+	overdue := func(p any) bool {
+		m, ok := p.(map[string]any)
+		return ok && num(m["state"]) == 1 && num(m["timeout"]) <= t
+	}
+	kind, _ := reqs[tid]["k"].(string)
+	if monitors["C04"] {
+		switch resp["k"] {
+		case "promise", "promiseTask":
+			if (kind == "ReadPromise" || kind == "CreatePromise" || kind == "CreatePromiseAndTask" || kind == "CompletePromise") && overdue(resp["promise"]) {
+				if num(resp["status"]) == 20100 {
+					return "C04", "F5", fmt.Sprintf("fresh create answered 201 with a PENDING promise whose timeout %v <= clock %d", resp["promise"].(map[string]any)["timeout"], t)
+				}
+				return "C04", "", fmt.Sprintf("%s response reports a pending promise past its timeout at tick %d: %v", kind, t, resp["promise"])
+			}
+		case "searchPromises":
+			ps, _ := resp["promises"].([]any)
+			for _, p := range ps {
+				if overdue(p) {
+					return "C04", "", fmt.Sprintf("search response reports a pending promise past its timeout at tick %d: %v", t, p)
+				}
+			}
+		}
+	}
+	if monitors["C05"] && resp["k"] == "callback" && num(resp["status"]) == 20000 && resp["callback"] == nil {
+		if p, ok := resp["promise"].(map[string]any); ok && num(p["state"]) == 1 {
+			// acknowledged with a pending body and no callback: the registration must already exist
+			c, _ := reqs[tid]["c"].(map[string]any)
+			id := ""
+			if kind == "CreateCallback" {
+				id = "__resume:" + fmt.Sprint(c["rootPromiseId"]) + ":" + fmt.Sprint(c["promiseId"])
+			} else {
+				id = "__notify:" + fmt.Sprint(c["promiseId"]) + ":" + fmt.Sprint(c["id"])
+			}
+			var n int
+			if err := w.rdb.QueryRow(`SELECT count(*) FROM callbacks WHERE id = ?`, id).Scan(&n); err == nil && n == 0 {
+				var st int
+				_ = w.rdb.QueryRow(`SELECT state FROM promises WHERE id = ?`, fmt.Sprint(c["promiseId"])).Scan(&st)
+				return "C05", "F1", fmt.Sprintf("registration %q acknowledged (200, promise reported PENDING, no callback) but no registration exists; the promise is now in state %d", id, st)
+			}
+		}
+	}
+	return "", "", ""
+}
+
 var forcePanics bool
 var monitors = map[string]bool{}
 
@@ -249,6 +311,8 @@ type runner struct {
 	n      int
 	counts map[string]int
 	status map[string]int
+	reqs   map[string]M
+	now    int64
 }
 
 type divergence struct {
@@ -287,6 +351,16 @@ func (r *runner) apply(w *world, st Step) (M, bool) {
 			}
 		}
 		w.events = nil
+		if st.Op == "tick" {
+			r.now = st.T
+		}
+		if st.Op == "submit" {
+			if r.reqs == nil {
+				r.reqs = map[string]M{}
+			}
+			nr, _ := lean.NormalizeValue(st.Req)
+			r.reqs[st.Tid] = nr.(map[string]any)
+		}
 		switch st.Op {
 		case "submit":
 			rq, err := canon.ParseReq(st.Req, st.Tid)
@@ -318,6 +392,13 @@ func (r *runner) apply(w *world, st Step) (M, bool) {
 			if m["e"] == "respond" {
 				resp := m["resp"].(map[string]any)
 				r.status[fmt.Sprintf("%v:%v", resp["k"], resp["status"])]++
+				if pid, key, what := respMonitor(w, r.reqs, fmt.Sprint(m["tid"]), resp, r.now); pid != "" {
+					if key != "" && known[key] {
+						r.counts["known:"+key]++
+					} else {
+						return M{"what": "property monitor failed on an implementation response", "property": pid, "finding": key, "diff": what, "property_violation": true, "step": st}, false
+					}
+				}
 			}
 			r.counts["ev:"+m["e"].(string)]++
 		}
@@ -709,6 +790,7 @@ func main() {
 	corpus := flag.String("corpus", "", "directory of recorded scripts to run first")
 	out := flag.String("out", "", "summary JSON path")
 	mon := flag.String("monitor", "", "comma-separated property ids whose monitors run on the implementation dumps")
+	knownFlag := flag.String("known", "", "comma-separated known-finding keys the response monitors tolerate (counted, not raised)")
 	flag.BoolVar(&forcePanics, "force", false, "execute predicted panics against the implementation (the process is expected to die)")
 	flag.Parse()
 	slog.SetDefault(slog.New(slog.NewTextHandler(io.Discard, nil)))
@@ -718,7 +800,11 @@ func main() {
 			monitors[m] = true
 		}
 	}
-
+	for _, k := range strings.Split(*knownFlag, ",") {
+		if k != "" {
+			known[k] = true
+		}
+	}
 	os.MkdirAll(*work, 0o755)
 	drv, err := lean.Start(*driver)
 	if err != nil {
